@@ -20,7 +20,7 @@
 (*                            of the class: helper(hard..., **self._kw);    *)
 (*                            av = "meth" a method | "prop" a property |    *)
 (*                            "upd" self._kw = dict(); self._kw.update(     *)
-(*                            **kwargs) | "dict" self._kw = dict(**kwargs)  *)
+(*                            **kwargs) | "dict" self._kw = dict( **kwargs)  *)
 (*                  "next"    (functions of a chain) the next function      *)
 (*            hard  names given as hard-coded keyword arguments at the call *)
 (*            pos   number of hard-coded POSITIONAL arguments at the call   *)
